@@ -389,7 +389,7 @@ def _c11_jobs(tier):
 PLANS['C11'] = dict(
     engine='reent', level='fault_enumeration', jobs=_c11_jobs,
     minimums=lambda t: {'cells_reached': 3000, 'audited_dicts': 1000, 'warm[hit]': 1000, 'leak_scenarios': 30, 'thread_lookups': 20000,
-                        'thread_mutations': 200, 'subrace_probes': 1000, 'mutrace_mutations': 600, 'mutrace_lookups': 5000},
+                        'thread_mutations': 200, 'subrace_probes': 1000, 'mutrace_mutations': 600, 'mutrace_lookups': 5000, 'parked_rebase_schedules': 4},
     rule='Fault model = callback points (every place where foreign Python code can run while a lookup is on the stack: lazy '
          'required, provided/name/required __hash__/__eq__/__bool__, overridden _uncached_* at entry and exit, spec weakref/'
          'subscribe, __providedBy__/__provides__/__conform__ descriptors, factories, __del__ of a cached value, _generation on '
